@@ -106,10 +106,15 @@ class NetfileMixin(object):
         # Switch context to capture new symbol definitions
         if self.context is not None:
             state.switch_context(self.context)
-        cpt = self._add(string)
-        self._invalidate()
-        if self.context is not None:
-            state.restore_context()
+        try:
+            cpt = self._add(string)
+        finally:
+            # A multi-line string may have been partly added before an
+            # exception; the caches must be invalidated and the context
+            # restored in any case.
+            self._invalidate()
+            if self.context is not None:
+                state.restore_context()
         return cpt
 
     def _add(self, string, namespace=''):
@@ -129,7 +134,13 @@ class NetfileMixin(object):
 
         cpt = self._parse(string, namespace)
         if cpt is not None:
-            self._cpt_add(cpt)
+            try:
+                self._cpt_add(cpt)
+            except Exception:
+                # Detach the rejected component from its nodes.
+                for node in cpt.nodes:
+                    node.remove(cpt)
+                raise
         return cpt
 
     def last_added(self):
